@@ -45,7 +45,8 @@ def cases(draw, tier):
             "op": "sort", "axis": draw(st.sampled_from(
                 ["sample", "sample", "observation"])),
             "key": draw(ops.KEY)}]
-    return {"table": spec, "op": op}
+    return {"table": spec, "op": op,
+            "gmd": draw(st.sampled_from([False, False, True]))}
 
 
 def strategy(tier):
@@ -75,6 +76,9 @@ def battery(r):
         r.update_ids({i: i + "~" for i in ids}, axis=axis, inplace=True)
     r.del_metadata(keys=["grp", "n", "taxonomy"], axis="whole")
     for axis in ("observation", "sample"):
+        r.add_group_metadata({"tree": ("newick", "(edited);"),
+                              "added": ("text", "x")}, axis=axis)
+    for axis in ("observation", "sample"):
         ids = [str(i) for i in r.ids(axis=axis)]
         if len(ids) > 1:
             r.filter(ids[1:], axis=axis, inplace=True)
@@ -85,6 +89,12 @@ def check(case, rec):
     op = case["op"]
     name = op["op"]
     t = gen.build(case["table"], rec=rec)
+    if case.get("gmd"):
+        # the receiver carries group metadata (a tree per axis)
+        t.add_group_metadata({"tree": ("newick", "((a,b),c);")},
+                             axis="observation")
+        t.add_group_metadata({"tree": ("newick", "(s);"),
+                              "graph": ("text", "g")}, axis="sample")
     before = observe.snapshot(t)
     lay = observe.layout(t)
     rec.cls("fmt:%s" % lay.get("format"))
